@@ -302,9 +302,52 @@ func init() {
 		if err := cond(c08CondWith(sync, "ackSeq >= 0"), "syncApplyCond", []string{"ackSeq"}, nil); err != nil {
 			return "", err
 		}
-		sb.WriteString("def isExpireCalls : List String := " + LeanStrList(c08Head(c08Calls(FindFunc(pt, "partition", "IsExpire")), 3)) + "\n")
+		isExpire := FindFunc(pt, "partition", "IsExpire")
+		sb.WriteString("def isExpireCalls : List String := " + LeanStrList(c08Calls(isExpire)) + "\n")
+		// every branch condition, as source text: an added or changed test re-opens the tie
+		sb.WriteString("def isExpireConds : List String := " + LeanStrList(c08CondTexts(isExpire)) + "\n")
+		sb.WriteString("def syncConds : List String := " + LeanStrList(c08CondTexts(sync)) + "\n")
+		sb.WriteString("def isReadyConds : List String := " + LeanStrList(c08CondTexts(isReady)) + "\n")
+		sb.WriteString("def replicaConds : List String := " + LeanStrList(c08CondTexts(replica)) + "\n")
+		sb.WriteString("def partitionReplicaConds : List String := " + LeanStrList(c08CondTexts(FindFunc(pt, "partition", "replica"))) + "\n")
+		sb.WriteString("def replicaLogConds : List String := " + LeanStrList(c08CondTexts(rl)) + "\n")
+		sb.WriteString("def stopReplicatorCalls : List String := " + LeanStrList(c08Calls(FindFunc(pt, "partition", "stopReplicator"))) + "\n")
+		sb.WriteString("def fanoutStopGroupCalls : List String := " + LeanStrList(c08Calls(FindFunc(fq, "fanOutQueue", "StopConsumerGroup"))) + "\n\n")
+		if err := cond(c08ReturnExpr(FindFunc(cg, "consumerGroup", "IsEmpty")), "isEmptyCond", []string{"qh", "ackSeq"},
+			map[string]string{"f.AcknowledgedSeq()": "ackSeq"}); err != nil {
+			return "", err
+		}
+		ncg := FindFunc(cg, "", "NewConsumerGroup")
+		if err := cond(c08CondWith(ncg, "consumedSeq < ackSeq"), "reopenConsumedCond", []string{"consumedSeq", "ackSeq"}, nil); err != nil {
+			return "", err
+		}
+		sb.WriteString("def newGroupAssigns : List String := " + LeanStrList(append(c08Assigns(ncg, "ackSeq"), c08Assigns(ncg, "consumedSeq")...)) + "\n")
 		return sb.String(), nil
 	}})
+}
+
+// c08CondTexts lists the source text of every if / case condition of fd in source order.
+func c08CondTexts(fd *ast.FuncDecl) []string {
+	var out []string
+	for _, c := range c08IfConds(fd) {
+		out = append(out, types.ExprString(c))
+	}
+	return out
+}
+
+// c08ReturnExpr returns the single result of the LAST return statement of fd.
+func c08ReturnExpr(fd *ast.FuncDecl) ast.Expr {
+	var out ast.Expr
+	if fd == nil || fd.Body == nil {
+		return nil
+	}
+	ast.Inspect(fd.Body, func(n ast.Node) bool {
+		if r, ok := n.(*ast.ReturnStmt); ok && len(r.Results) == 1 {
+			out = r.Results[0]
+		}
+		return true
+	})
+	return out
 }
 
 // c08Calls = CallSeq without logging/statistics/lock noise (those are not modelled).
